@@ -225,9 +225,9 @@ Proof.
     pose proof (gs_bump _ Hs) as Hb; cbn [F].
   - right; left. exists (bump s). cbn. auto.
   - cbn [forallb] in Hc. apply andb_true_iff in Hc. destruct Hc as [Hc Hr].
-    unfold seq_res. rewrite !(run_cards_cons _ _ _ Hc).
+    unfold seq_res. rewrite (run_cards_cons _ _ _ Hc).
     pose proof (eval_stmt _ Hc f _ Hb) as [E|[(s1 & E & Hrun & Hs1)|(s1 & E & Hrun & Hs1)]];
-      rewrite E; cbn [bnd ok err bump st_globals] in *; rewrite Hrun.
+      rewrite E; cbn [bnd ok err bump st_globals] in *; try rewrite Hrun.
     + left; reflexivity.
     + pose proof (IH Hr f s1 Hs1) as [E2|[(s2 & E2 & Hrun2 & Hs2)|(s2 & E2 & Hrun2 & Hs2)]];
         rewrite E2; cbn [bnd ok err app].
@@ -242,13 +242,21 @@ End Eval.
 Lemma flatten_std_some : exists l, flatten 63 std_module [s_std] = Some l.
 Proof. vm_compute. eexists. reflexivity. Qed.
 
+Lemma flatten_f1 d f stdl :
+  flatten d std_module [s_std] = Some stdl ->
+  flatten (S d) (Module [(s_std, std_module)] [(s_main, f)] []) [] =
+  Some ({| fe_name := s_main; fe_ns := []; fe_imports := []; fe_fn := f |} :: stdl).
+Proof.
+  intros H. cbn [flatten mk_imports map ns_prefix flat_map fst snd app]. rewrite H, app_nil_r. reflexivity.
+Qed.
+
 Lemma str_eqb_main name : Compiler.str_eqb name Compiler.s_main = true -> name = s_main.
 Proof.
   intros H. apply (proj1 (list_eqb_spec N.eqb N.eqb_eq name Compiler.s_main)) in H. exact H.
 Qed.
 
 Lemma to_tree_simple d v : simple v -> to_tree d [] v = vm_tree (to_vm v).
-Proof. destruct v; cbn; intros []; reflexivity. Qed.
+Proof. destruct d, v; cbn; intros []; reflexivity. Qed.
 
 (* the observation of a program of F1 *)
 Theorem eval_program_f1 fuel M host o :
@@ -264,17 +272,21 @@ Proof.
   apply andb_true_iff in HM. destruct HM as [HM Hcards]. apply andb_true_iff in HM. destruct HM as [Hname _].
   apply str_eqb_main in Hname. subst name.
   destruct flatten_std_some as [stdl Hstd].
-  unfold eval_program, program_of, add_std. cbn [app flatten mk_imports map ns_prefix flat_map fst snd option_map].
-  rewrite Hstd. cbn [app find_index fe_name str_eqb bytes_eqb s_main N.eqb Pos.eqb andb nth_error fe_fn main_cards].
-  set (P := _ :: _).
+  unfold eval_program, program_of, add_std. cbn [app].
+  change 64%nat with (S 63). rewrite (flatten_f1 63 f stdl Hstd).
+  cbn [find_index fe_name]. change (str_eqb s_main s_main) with true. cbv iota.
+  cbn [nth_error fe_fn main_cards].
+  set (P := _ :: stdl).
   intros H.
   assert (Hgs : gs init_state) by (split; [reflexivity | constructor]).
-  pose proof (eval_seq P host (step_limit fuel) 0 _ Hcards fuel Hgs) as [E|[(s1 & E & Hrun & Hs1)|(s1 & E & Hrun & Hs1)]];
+  pose proof (eval_seq P host (step_limit fuel) 0 _ Hcards fuel _ Hgs) as [E|[(s1 & E & Hrun & Hs1)|(s1 & E & Hrun & Hs1)]];
     fold env0 in H; rewrite E in H; cbn [ok err] in H; try discriminate H.
   - injection H as <-. exists (st_globals s1). cbn [ob_kind ob_globals observe]. destruct Hs1 as [Hh Hg].
-    repeat split; auto. rewrite Hh. apply map_ext_in. intros [n v] Hin. cbn [fst snd]. f_equal.
-    apply to_tree_simple. rewrite Forall_forall in Hg. apply (Hg _ Hin).
+    repeat split; auto. rewrite Hh. apply map_ext_in. intros [n v] Hin.
+    rewrite Forall_forall in Hg. pose proof (Hg _ Hin) as Hv. cbn [snd] in Hv.
+    destruct v; try contradiction; reflexivity.
   - injection H as <-. exists (st_globals s1). cbn [ob_kind ob_globals observe]. destruct Hs1 as [Hh Hg].
-    repeat split; auto. rewrite Hh. apply map_ext_in. intros [n v] Hin. cbn [fst snd]. f_equal.
-    apply to_tree_simple. rewrite Forall_forall in Hg. apply (Hg _ Hin).
+    repeat split; auto. rewrite Hh. apply map_ext_in. intros [n v] Hin.
+    rewrite Forall_forall in Hg. pose proof (Hg _ Hin) as Hv. cbn [snd] in Hv.
+    destruct v; try contradiction; reflexivity.
 Qed.
